@@ -15,7 +15,7 @@ and fails loudly (exception -> the check reports the tie as broken) on anything 
 Statement templates (the statements core of Model/EmitStmt: emitLines is an interpreter of these lines):
   assign/move_assign.j2, assign/aug_assign.j2, assign/move_assign_declare.j2 (the plain branch: neither `is_initializer` nor `is_static`),
   statement/return.j2 (the branch with a return value), flow/if/{if,else_if,else}.j2 (not the `std::is_same_v` / constexpr forms),
-  flow/while.j2, flow/for/range.j2.
+  flow/while.j2, flow/for/range.j2, statement/break.j2, statement/continue.j2.
 For each file the translator checks the WHOLE file against the skeleton it has today (the statements block
 `{%- filter indent('\t') %}{%- for statement in statements %}{{ statement }}{%- endfor %}{%- endfilter %}`, where the else-ifs and the
 else clause are spliced, the closing line) and extracts the head / tail lines as pieces; any other shape raises.
@@ -245,7 +245,7 @@ def parse_template(path: str, i18n: I18n) -> list[tuple[Any, list[tuple[str, str
 STMT_DIR = 'data/cpp/template'
 BODY_BLOCK = ["{%- filter indent('\\t') %}", '{%- for statement in statements %}', '{{ statement }}', '{%- endfor %}', '{%- endfilter %}']
 STMT_SOURCES = ['assign/move_assign.j2', 'assign/aug_assign.j2', 'assign/move_assign_declare.j2', 'statement/return.j2', 'flow/if/if.j2', 'flow/if/else_if.j2', 'flow/if/else.j2',
-	'flow/while.j2', 'flow/for/range.j2']
+	'flow/while.j2', 'flow/for/range.j2', 'statement/break.j2', 'statement/continue.j2']
 
 
 def _lines(rel: str) -> list[str]:
@@ -285,6 +285,12 @@ def parse_statement_templates(i18n: I18n) -> dict[str, Any]:
 	if len(got) != 7 or [got[0], got[2], got[4], got[6]] != ['{%- if is_initializer -%}', '{%- elif is_static -%}', '{%- else -%}', '{%- endif -%}']:
 		raise ValueError(f'assign/move_assign_declare.j2: unexpected branch structure {got}')
 	lines['stmtDeclare'] = head('assign/move_assign_declare.j2', got[5])
+	# statement/break.j2, statement/continue.j2: one content line without variables
+	for name, rel in (('stmtBreak', 'statement/break.j2'), ('stmtContinue', 'statement/continue.j2')):
+		got = _lines(rel)
+		if len(got) != 1 or '{' in got[0]:
+			raise ValueError(f'{rel}: expected a single content line without tags')
+		lines[name] = head(rel, got[0])
 	# statement/return.j2: if return_self / return *this; / else / return{% if return_value %} {{ return_value }}{% endif %}; / endif
 	got = _lines('statement/return.j2')
 	if len(got) != 5 or [got[0], got[2], got[4]] != ['{%- if return_self -%}', '{%- else -%}', '{%- endif -%}']:
